@@ -129,11 +129,15 @@ func checkC09(p *core.Program, r *core.Report) {
 	r.NotDecided = append(r.NotDecided, "panics/hangs inside third-party code for arbitrary bodies", "validity of the returned proof (C07)")
 
 	ix := indexFuncs(p)
-	hfn, _, why := proveHandlerFn(p)
-	if hfn == nil {
+	he, why := proveHandlerEntry(p)
+	if he == nil {
 		r.Violation("O9.1", "anchor server.Run: /prove handler", "-", "%s", why)
 		return
 	}
+	// the walk starts where net/http enters (a middleware's closure, if there is one); the syntax-level rules read the
+	// handler type's own ServeHTTP
+	entryFn := he.Fn
+	hfn := he.Inner
 	hobj, _ := hfn.Object().(*types.Func)
 	hu, ok := ix.decls[hobj]
 	if !ok {
@@ -149,7 +153,9 @@ func checkC09(p *core.Program, r *core.Report) {
 	}
 	// ---- O9.1 / O9.2: path-sensitive walk of the handler and the functions of its package it calls (respflow.go)
 	ps := provingSystemType(p)
-	rw := checkResponsePaths(p, r, hfn, ps, modeConstants(p), "O9.1", "O9.2")
+	respEntryBind = he.Bind
+	rw := checkResponsePaths(p, r, entryFn, ps, modeConstants(p), "O9.1", "O9.2")
+	respEntryBind = nil
 	_ = w
 	// whole-body decoding: a streaming decoder accepts trailing bytes after a valid document
 	ast.Inspect(hu.Node, func(n ast.Node) bool {
